@@ -154,6 +154,10 @@ func (u *universe) header(env *zygo.Zlisp) (input, impl string) {
 		toks = append(toks, fmt.Sprintf("%s@%d@%s@%s", shape(k), code,
 			hex.EncodeToString([]byte(dstr(k))), hex.EncodeToString([]byte(djson(env, k)))))
 	}
+	for _, c := range []byte(specials) {
+		v := specialValue(env, c)
+		toks = append(toks, fmt.Sprintf("=%c@-@%s@%s", c, hex.EncodeToString([]byte(v.SexpString(nil))), hex.EncodeToString([]byte(zygo.SexpToJson(v)))))
+	}
 	var eq, ac []string
 	for _, a := range u.keys {
 		for _, b := range u.keys {
@@ -193,17 +197,41 @@ var univB = []kspec{arr(in(1), in(97)), arr(in(1), ch('a')), in(97), ch('a'), ar
 // universe C = nested one-element arrays: [[1]] is stored as [1] (and then looked up as 1)
 var univC = []kspec{in(1), arr(in(1)), arr(arr(in(1))), arr(arr(in(1), in(2))), arr(in(1), in(2))}
 
+// universe V = few keys, many VALUES: histories here also store nil, false, 0, "" and []
+var univV = []kspec{sym("a"), str("s"), in(1)}
+
 // ---------------------------------------------------------------- operations
 
 type op struct {
 	del bool
 	k   int
 	v   int64
+	sv  byte // 0 = the integer v; otherwise a special value: N nil, F false, E "", L []
+}
+
+// values that look "absent" to careless code: nil, false, the empty string, the empty array (and 0)
+const specials = "NFEL"
+
+func specialValue(env *zygo.Zlisp, c byte) zygo.Sexp {
+	switch c {
+	case 'N':
+		return zygo.SexpNull
+	case 'F':
+		return &zygo.SexpBool{Val: false}
+	case 'E':
+		return &zygo.SexpStr{S: ""}
+	case 'L':
+		return &zygo.SexpArray{Val: []zygo.Sexp{}, Env: env}
+	}
+	panic("bad special value")
 }
 
 func (o op) String() string {
 	if o.del {
 		return "d" + strconv.Itoa(o.k)
+	}
+	if o.sv != 0 {
+		return "s" + strconv.Itoa(o.k) + "=" + string(o.sv)
 	}
 	return "s" + strconv.Itoa(o.k) + "=" + strconv.FormatInt(o.v, 10)
 }
@@ -230,9 +258,9 @@ type driver interface {
 	loopValues() (zygo.Sexp, int)                   // key, value, key, value .. seen by the range macro
 }
 
-// an argument is a universe key, an integer, or the default marker
+// an argument is a universe key, an integer, a special value, or the default marker
 type arg struct {
-	kind byte // k i d
+	kind byte // k i v d
 	k    int
 	i    int64
 }
@@ -299,6 +327,8 @@ func (d *applyDriver) call(name string, args ...arg) (zygo.Sexp, int) {
 			sx = append(sx, d.u.keys[a.k])
 		case 'i':
 			sx = append(sx, &zygo.SexpInt{Val: a.i})
+		case 'v':
+			sx = append(sx, specialValue(d.env, byte(a.i)))
 		case 'd':
 			sx = append(sx, d.dflt)
 		}
@@ -338,6 +368,9 @@ func (d *scriptDriver) call(name string, args ...arg) (zygo.Sexp, int) {
 			src += " k" + strconv.Itoa(a.k)
 		case 'i':
 			src += " " + strconv.FormatInt(a.i, 10)
+		case 'v':
+			src += " v" + string(byte(a.i)) // bound by AddGlobal to a fresh special value before the call
+			d.env.AddGlobal("v"+string(byte(a.i)), specialValue(d.env, byte(a.i)))
 		case 'd':
 			src += " dflt"
 		}
@@ -358,8 +391,25 @@ func (d *scriptDriver) loopValues() (zygo.Sexp, int) {
 // ---------------------------------------------------------------- observation
 
 func val(v zygo.Sexp) string {
-	if x, ok := v.(*zygo.SexpInt); ok {
+	switch x := v.(type) {
+	case *zygo.SexpInt:
 		return strconv.FormatInt(x.Val, 10)
+	case *zygo.SexpBool:
+		if !x.Val {
+			return "F"
+		}
+	case *zygo.SexpStr:
+		if x.S == "" {
+			return "E"
+		}
+	case *zygo.SexpArray:
+		if len(x.Val) == 0 {
+			return "L"
+		}
+	case *zygo.SexpSentinel:
+		if v == zygo.SexpNull {
+			return "N"
+		}
 	}
 	if v == nil {
 		return "?go-nil"
@@ -506,24 +556,100 @@ func observe(d driver, u *universe, nops int, script bool) string {
 	return b.String()
 }
 
+// results handed out earlier are VALUES: a later operation must not change them, and changing
+// them must not change the hash.  A held result is re-rendered at the end of the history.
+type held struct {
+	step int
+	what string
+	obj  zygo.Sexp
+	was  string
+}
+
+func renderHeld(v zygo.Sexp) string {
+	switch x := v.(type) {
+	case *zygo.SexpArray:
+		var p []string
+		for _, e := range x.Val {
+			p = append(p, shape(e))
+		}
+		return "[" + strings.Join(p, ",") + "]"
+	case *zygo.SexpPair:
+		return outpair(v, stOK)
+	}
+	return text(v, stOK)
+}
+
+func capture(d driver, step int, hs []held) []held {
+	ks, st := d.call("keys")
+	n := 0
+	if a, ok := ks.(*zygo.SexpArray); ok && st == stOK {
+		hs = append(hs, held{step, "keys", ks, renderHeld(ks)})
+		n = len(a.Val)
+	}
+	for p := 0; p < n; p++ {
+		if v, st := d.call("hpair", arg{kind: 'i', i: int64(p)}); st == stOK {
+			hs = append(hs, held{step, "hpair" + strconv.Itoa(p), v, renderHeld(v)})
+		}
+		if v, st := d.call("__rangePair", arg{kind: 'i', i: int64(p)}); st == stOK {
+			hs = append(hs, held{step, "rangePair" + strconv.Itoa(p), v, renderHeld(v)})
+		}
+	}
+	return hs
+}
+
+// overwrite the containers of held results (array slots, pair cells) with junk
+func scribble(hs []held) {
+	junk := &zygo.SexpStr{S: "JUNK"}
+	for _, h := range hs {
+		switch x := h.obj.(type) {
+		case *zygo.SexpArray:
+			for i := range x.Val {
+				x.Val[i] = junk
+			}
+		case *zygo.SexpPair:
+			if t, ok := x.Tail.(*zygo.SexpPair); ok {
+				t.Head = junk
+			}
+			x.Head = junk
+		}
+	}
+}
+
 // run a history on a fresh hash; returns the observation after the last step
 func runHistory(d driver, u *universe, ops []op, script bool) string {
 	d.reset()
-	for _, o := range ops {
+	var hs []held
+	for i, o := range ops {
 		var st int
 		if o.del {
 			_, st = d.call("hdel", arg{kind: 'k', k: o.k})
+		} else if o.sv != 0 {
+			_, st = d.call("hset", arg{kind: 'k', k: o.k}, arg{kind: 'v', i: int64(o.sv)})
 		} else {
 			_, st = d.call("hset", arg{kind: 'k', k: o.k}, arg{kind: 'i', i: o.v})
 		}
 		if st != stOK {
 			return fmt.Sprintf("OPFAILED(%s,%d)", o.String(), st)
 		}
+		if i+1 < len(ops) {
+			hs = capture(d, i+1, hs) // results taken in between, held until the end
+		}
 	}
 	o1 := observe(d, u, len(ops), script)
 	o2 := observe(d, u, len(ops), script)
 	if o1 != o2 {
 		return o1 + ";REOBSERVED-DIFFERENT=" + o2
+	}
+	for _, h := range hs {
+		if now := renderHeld(h.obj); now != h.was {
+			return o1 + fmt.Sprintf(";HELD-RESULT-CHANGED(%s taken after step %d was %s now %s)", h.what, h.step, h.was, now)
+		}
+	}
+	// changing what was handed out (now and earlier) must not change the hash
+	hs = capture(d, len(ops), hs)
+	scribble(hs)
+	if o3 := observe(d, u, len(ops), script); o3 != o1 {
+		return o1 + ";HASH-CHANGED-THROUGH-A-RESULT=" + o3
 	}
 	return o1
 }
@@ -542,7 +668,7 @@ type replayFile struct {
 func main() {
 	a := lib.ParseArgs()
 	out := lib.NewOut(a.Out)
-	out.Rule = "universe A (9 keys: symbols a b, strings s t, ints 1 97, char 'a' (= 97), array [1], int = symbol number of a), universe B (9 keys: arrays [1 97] [1 'a'] [97] ['a'] [], 97, 'a', string s, int = fnv code of s) and universe C (5 keys: 1 [1] [[1]] [[1 2]] [1 2]): ALL histories of hset/hdel (fresh value per step) up to the length bound, each observed after its last step (so after every step of every history); random long histories observed after every step; a case is non-trivial when the history has at least 2 operations; distinct = distinct (mode, universe, history) inputs"
+	out.Rule = "universe A (9 keys: symbols a b, strings s t, ints 1 97, char 'a' (= 97), array [1], int = symbol number of a), universe B (9 keys: arrays [1 97] [1 'a'] [97] ['a'] [], 97, 'a', string s, int = fnv code of s), universe C (5 keys: 1 [1] [[1]] [[1 2]] [1 2]) and universe V (3 keys a s 1 with the values fresh-int, 0, nil, false, empty string, []): ALL histories of hset/hdel (fresh value per step) up to the length bound, each observed after its last step (so after every step of every history); the key list and every positional pair taken after EVERY intermediate step are held and must read the same at the end, and overwriting the handed-out containers must not change the hash; random long histories observed after every step; a case is non-trivial when the history has at least 2 operations; distinct = distinct (mode, universe, history) inputs"
 	env := zygo.NewZlisp()
 	env.StandardSetup()
 	dflt := &zygo.SexpStr{S: "DFLT"}
@@ -558,7 +684,8 @@ func main() {
 	uA := mkU("A", univA)
 	uB := mkU("B", univB)
 	uC := mkU("C", univC)
-	unis := map[string]*universe{"A": uA, "B": uB, "C": uC}
+	uV := mkU("V", univV)
+	unis := map[string]*universe{"A": uA, "B": uB, "C": uC, "V": uV}
 
 	var cur *universe
 	use := func(u *universe) {
@@ -613,8 +740,12 @@ func main() {
 				} else {
 					kv := strings.SplitN(t[1:], "=", 2)
 					k, _ := strconv.Atoi(kv[0])
-					v, _ := strconv.ParseInt(kv[1], 10, 64)
-					ops = append(ops, op{k: k, v: v})
+					if len(kv[1]) == 1 && strings.Contains(specials, kv[1]) {
+						ops = append(ops, op{k: k, sv: kv[1][0]})
+					} else {
+						v, _ := strconv.ParseInt(kv[1], 10, 64)
+						ops = append(ops, op{k: k, v: v})
+					}
 				}
 			}
 			emit(f[0], ops)
@@ -624,10 +755,10 @@ func main() {
 	}
 
 	// bounds per tier
-	exA, exB, exC, exS := 4, 3, 3, 2
+	exA, exB, exC, exV, exS := 4, 3, 3, 3, 2
 	nRand, randLen := 60, 40
 	if a.Tier == "thorough" {
-		exA, exB, exC, exS = 5, 4, 5, 3
+		exA, exB, exC, exV, exS = 5, 4, 5, 4, 3
 		nRand, randLen = 600, 80
 	}
 	var enum func(mode string, prefix []op, depth int)
@@ -639,6 +770,12 @@ func main() {
 		v := int64(len(prefix) + 1)
 		for k := range cur.keys {
 			enum(mode, append(prefix[:len(prefix):len(prefix)], op{k: k, v: v}), depth-1)
+			if cur.id == "V" {
+				enum(mode, append(prefix[:len(prefix):len(prefix)], op{k: k, v: 0}), depth-1)
+				for _, c := range []byte(specials) {
+					enum(mode, append(prefix[:len(prefix):len(prefix)], op{k: k, sv: c}), depth-1)
+				}
+			}
 			enum(mode, append(prefix[:len(prefix):len(prefix)], op{del: true, k: k}), depth-1)
 		}
 	}
@@ -657,6 +794,9 @@ func main() {
 	use(uC)
 	all("A", exC)
 	all("S", exS)
+	use(uV)
+	all("A", exV)
+	all("S", exS)
 
 	// random long histories, observed after every step; deletes are biased to live keys
 	rng := lib.NewRng(a.Seed)
@@ -667,6 +807,9 @@ func main() {
 		}
 		if n%10 == 9 {
 			u = uC
+		}
+		if n%10 == 5 {
+			u = uV
 		}
 		if cur != u {
 			use(u)
@@ -680,9 +823,16 @@ func main() {
 		var ops []op
 		for i := 0; i < L; i++ {
 			k := rng.Intn(nk)
-			if rng.Intn(5) < 2 {
+			switch r := rng.Intn(10); {
+			case r < 4:
 				ops = append(ops, op{del: true, k: k})
-			} else {
+			case r < 6:
+				if c := rng.Intn(len(specials) + 1); c < len(specials) {
+					ops = append(ops, op{k: k, sv: specials[c]})
+				} else {
+					ops = append(ops, op{k: k, v: 0})
+				}
+			default:
 				ops = append(ops, op{k: k, v: int64(i + 1)})
 			}
 			emit(mode, ops)
@@ -691,6 +841,7 @@ func main() {
 	out.Extra["exhaustive_length_universe_A_applied"] = exA
 	out.Extra["exhaustive_length_universe_B_applied"] = exB
 	out.Extra["exhaustive_length_universe_C_applied"] = exC
+	out.Extra["exhaustive_length_universe_V_applied"] = exV
 	out.Extra["exhaustive_length_script"] = exS
 	out.Extra["random_histories"] = nRand
 	out.Extra["random_max_length"] = randLen + 4
